@@ -115,7 +115,8 @@ impl StoreRig {
     pub fn put(&mut self, key: &RecordKey, value: &[u8]) -> Result<(), String> {
         let record = Record { key: key.clone(), value: value.to_vec(), publisher: None, expires: None };
         let Some(rt) = record_type_of(&record) else { return Err("InCorrectRecordHeader".into()) };
-        let evicted = self.view().farthest;
+        // what the store itself names as its farthest record (the one a put at capacity evicts)
+        let evicted = self.store.get_farthest();
         let tag = hexkey(key);
         let store = &mut self.store;
         let (res, ids) = self.exec.capture(None, &tag, || store.verif_put_verified(record, rt));
